@@ -72,4 +72,8 @@ class Frame(Generic[BeamT]):
         return beams
 
     def __getitem__(self, index):
+        if index < 0:
+            # no wrapping around: corner -1 is not corner 7
+            raise KeyError(f"Invalid corner index ({index}). Use block-local indexing (0...7).")
+
         return self.beams[index]
